@@ -46,7 +46,7 @@ func init() {
 		Level: "exploration",
 		Rule: "a case is one import history (tree, arrival order, batching, restarts) run against a fresh real BlockChain and checked after every call. " +
 			"small: trees of <= 7 blocks from forced templates (shorter-heavier, tie at unequal/equal height, late-heaviest side branch, invalid heavy block, star, random) with per-block difficulties from {1,2,3,5,8,13} under the full-fake engine: every topological arrival order (quick: capped at 300 sampled orders when a tree has more) x one PRNG batching with re-deliveries; " +
-			"medium: 8..24 blocks, PRNG parent-closed orders with branch runs, restarts of pruning nodes, forced pruned-ancestor and borrowed-state-root templates; real: gen.GrowTree trees (26..40 main blocks, forks, uncles, transactions, 23-fast-block shorter-heavier branch, equal-height tie) under the real difficulty rule; deep: fork >128 blocks below the head of a pruning node; header: the same trees through InsertHeaderChain; local_write_race: two sibling children of the head (heavier/lighter, or tied), one imported with InsertChain and the other written with WriteBlockWithState the way the miner does, concurrently: all four directed forced interleavings (first writer parked inside its write section until the second waits for the chain lock) plus free-running repetitions, then children of both delivered sequentially. " +
+			"medium: 8..24 blocks, PRNG parent-closed orders with branch runs, restarts of pruning nodes, forced pruned-ancestor, borrowed-state-root and longer-lighter-branch-regains-after-restart templates; real: gen.GrowTree trees (26..40 main blocks, forks, uncles, transactions, 23-fast-block shorter-heavier branch, equal-height tie) under the real difficulty rule; deep: fork >128 blocks below the head of a pruning node, and a 270-block line overtaken and regaining the head without a restart (block-cache eviction); header: the same trees through InsertHeaderChain; local_write_race: two sibling children of the head (heavier/lighter, or tied), one imported with InsertChain and the other written with WriteBlockWithState the way the miner does, concurrently: all four directed forced interleavings (first writer parked inside its write section until the second waits for the chain lock) plus free-running repetitions, then children of both delivered sequentially. " +
 			"non-trivial = at least one reorg happened and after at least one call the head was not the last block delivered; distinct = hash of (tree description, history).",
 		Legs: func(tier string) []fw.Leg {
 			legs := []fw.Leg{
@@ -76,6 +76,9 @@ func init() {
 				"medium/block_stored_without_state":                           8,
 				"medium/side_block_executed_after_being_stored_without_state": 8,
 				"medium/reorg_to_shorter_heavier":                             8,
+				"medium/reorg_to_branch_two_longer_first_call_after_restart":  16,
+				"deep/cache_eviction_histories":                               4,
+				"deep/reorg_to_branch_two_longer_by_single_block":             4,
 				"medium/borrowed_state_root_histories":                        8,
 				"real/reorg_to_shorter_heavier":                               8,
 				"real/histories_with_tie_at_equal_height":                     8,
@@ -95,7 +98,7 @@ func init() {
 		AnchorFiles: []string{"core/blockchain.go", "core/headerchain.go", "core/database_util.go"},
 		Assumptions: []string{
 			"the ledger's total difficulty of a block is the sum of the header difficulties from the genesis, computed by the harness with math/big when it generates the tree; it never reads the node's records",
-			"'fully validated' = the block and all its ancestors are self-consistent (known to the generator) and the node reports block and state present (HasBlockAndState) after a call that offered it; the set is sticky across restarts of a pruning node",
+			"'fully validated' = the block and all its ancestors are self-consistent (known to the generator) and header, body and the state of its root are present in the node's database / state cache after a call that offered it (read without going through the chain's block cache, so the monitor never warms it); the set is sticky across restarts of a pruning node",
 			"small/medium/deep trees run under aquahash.NewFullFaker (no header rule is checked, so arbitrary difficulties are admissible; core's total-difficulty and fork-choice code is unchanged); real trees run under aquahash.NewFaker (every header rule except the seal)",
 			"blocks with chosen difficulty are the builder's blocks (core.GenerateChain) re-headered with new Difficulty/ParentHash; their transactions do not read DIFFICULTY, BLOCKHASH or TIMESTAMP, so roots stay valid",
 			"the header-only leg reads 'head' as CurrentHeader and 'validated' as 'header accepted', as the property's mechanism note (headerchain.WriteHeader uses the same rule) says",
@@ -230,7 +233,8 @@ func runSmall(c *fw.Ctx) {
 // ---------------------------------------------------------------------------
 // medium: sampled orders, restarts, pruned ancestors, hostile side blocks.
 
-var mediumTemplates = []string{"random", "shorter_heavier", "pruned_restart", "tie", "borrowed_state_root", "invalid_heavy", "pruned_restart_one_batch", "borrowed_state_root_control"}
+var mediumTemplates = []string{"random", "shorter_heavier", "pruned_restart", "tie", "borrowed_state_root", "invalid_heavy", "pruned_restart_one_batch", "borrowed_state_root_control",
+	"longer_lighter_regains_after_restart_archive", "longer_lighter_regains_after_restart_pruning"}
 
 // withRestarts inserts restart steps at PRNG positions.
 func withRestarts(r *fw.Rand, ops []hop, perEight int) []hop {
@@ -327,8 +331,29 @@ func borrowedRootCase(r *fw.Rand, control bool) (*shape, []hop) {
 	return s, ops
 }
 
+// regainCase: a long light line S is overtaken by a short heavy branch A, the
+// node restarts (all caches empty), and then ONE more S block makes S the
+// heaviest again: the reorg has to walk down a new branch that is several
+// blocks longer than the old one and whose blocks were all delivered by earlier
+// calls (nothing of it is in the node's caches).
+func regainCase(r *fw.Rand) (*shape, []hop) {
+	s := &shape{Config: configNames[r.Intn(len(configNames))], Tmpl: "longer_lighter_regains_after_restart"}
+	k := r.Range(5, 8)
+	p := 0
+	for i := 0; i < k; i++ {
+		p = s.push(p, 1)
+	}
+	fork := r.Intn(2) // genesis or S1
+	a1 := s.push(fork, int64(k))
+	a2 := s.push(a1, int64(k))
+	last := s.push(k, int64(k+5)) // td(S) = 2k+5 > td(A) <= 2k+1
+	ops := splitLine(r, line(1, k), "insert", 4)
+	ops = append(ops, hop{K: "insert", B: []int{a1, a2}}, hop{K: "restart"}, hop{K: "insert", B: []int{last}})
+	return s, ops
+}
+
 func runMedium(c *fw.Ctx) {
-	nShapes := c.Pick(8, 160)
+	nShapes := c.Pick(10, 160)
 	nOrders := c.Pick(8, 40)
 	for i := 0; i < nShapes; i++ {
 		tmpl := mediumTemplates[(c.Batch*nShapes+i)%len(mediumTemplates)]
@@ -338,6 +363,15 @@ func runMedium(c *fw.Ctx) {
 			s, ops := prunedRestartCase(r, tmpl == "pruned_restart_one_batch")
 			t := buildShape(r, s, 2).materialize(s)
 			runHistory(c, fmt.Sprintf("medium-%d-forced", i), t, history{Tree: *s, Mode: "pruning", Ops: ops}, i < 3)
+			continue
+		case "longer_lighter_regains_after_restart_archive", "longer_lighter_regains_after_restart_pruning":
+			s, ops := regainCase(r)
+			t := buildShape(r, s, 2).materialize(s)
+			mode := "archive"
+			if tmpl == "longer_lighter_regains_after_restart_pruning" {
+				mode = "pruning"
+			}
+			runHistory(c, fmt.Sprintf("medium-%d-forced", i), t, history{Tree: *s, Mode: mode, Ops: ops}, false)
 			continue
 		case "borrowed_state_root", "borrowed_state_root_control":
 			s, ops := borrowedRootCase(r, tmpl == "borrowed_state_root_control")
@@ -455,9 +489,36 @@ func runReal(c *fw.Ctx) {
 // node (its fork point's state has been garbage-collected from memory and was
 // never written to disk).
 
+// evictionCase: no restart. A 270-block light line S, a 3-block heavy branch A
+// from the genesis (the reorg to A walks the whole old chain through the node's
+// 256-entry block cache, pushing the top of S out of it), then one more S block
+// that makes S heaviest again: the walk down the new branch reads blocks that
+// are in the database only.
+func runEviction(c *fw.Ctx, i int) {
+	r := c.Rand("deep-evict", fmt.Sprint(i))
+	s := &shape{Config: configNames[r.Intn(len(configNames))], Tmpl: "cache_eviction"}
+	L := r.Range(268, 276)
+	p := 0
+	for k := 0; k < L; k++ {
+		p = s.push(p, 1)
+	}
+	a := s.push(0, 100)
+	a = s.push(a, 100)
+	a = s.push(a, int64(L-190)) // td(A) = L+10
+	last := s.push(L, 40)       // td(S) = L+40
+	t := buildShape(r, s, 0).materialize(s)
+	ops := splitLine(r, line(1, L), "insert", 90)
+	ops = append(ops, hop{K: "insert", B: []int{a - 2, a - 1, a}}, hop{K: "insert", B: []int{last}})
+	desc := map[string]interface{}{"template": "cache_eviction", "config": s.Config, "light_line": L, "heavy_branch": "3 blocks from genesis, td L+10", "last_block_difficulty": 40}
+	mode := []string{"archive", "pruning"}[(c.Batch+i)%2]
+	c.Count("deep/cache_eviction_histories")
+	runHistory(c, fmt.Sprintf("deep-evict-%d", i), t, history{Tree: desc, Mode: mode, Ops: ops}, false)
+}
+
 func runDeep(c *fw.Ctx) {
 	nTrees := c.Pick(1, 4)
 	for i := 0; i < nTrees; i++ {
+		runEviction(c, i)
 		r := c.Rand("deep", fmt.Sprint(i))
 		s := &shape{Config: configNames[r.Intn(len(configNames))], Tmpl: "deep_fork"}
 		L := r.Range(134, 150)
